@@ -2121,6 +2121,15 @@ class Engine(object):
                 raise EngineError("subscript assignment form not supported (line %s)" % getattr(target, "lineno", "?"))
             s, (base, idx) = r[0]
             if isinstance(base, ObjV):
+                ext = self.externals.get(base.cls + ".__setitem__")
+                if ext is not None:
+                    rr = ext(self, base, [idx, value], {}, s, target)
+                    if len(rr) != 1:
+                        raise EngineError("external __setitem__ that forks (line %s)" % getattr(target, "lineno", "?"))
+                    s3, _v, newobj = rr[0]
+                    if newobj is not None and newobj is not base:
+                        s3 = self.assign(target.value, newobj, s3, node)
+                    return s3
                 m = self.find_method(base.cls, "__setitem__")
                 if m is not None:
                     # obj[k] = v on a repository class: its __setitem__, the mutated object written back
